@@ -26,6 +26,25 @@ CLAIMED = {
         ref='6 C07'),
 }
 
+CLAIMED.update({
+    'C04': dict(
+        text='Every 32-bit mnemonic is assembled as a one-instruction program with compression off and on, sharing symbolic operands (constants/aliases and literal numerals). For every jointly feasible pair of paths: a 16-bit result must be a legal non-hint RV32C halfword whose expansion has the same architectural effect (register written, value, memory access, control transfer; link = next instruction) as the 32-bit word for every register file and pc; a result left at 32 bits must be unchanged.',
+        note='Trusted: spec/sem.py (RV32 step semantics, RVC expansion/legality), z3, stubs. Bound: single-instruction programs and the layout templates; operand widths in evidence.',
+        ref='6 C04'),
+    'C05': dict(
+        text='Each of the 27 pseudo-instructions is assembled by the real pipeline with symbolic registers, li value and target distance (forward/backward, symbolic gap), both modes; the emitted words are executed by the reference step semantics from an arbitrary register file and even load address and must produce exactly the documented register file and pc (Skolem register index).',
+        note='Trusted: spec/sem.py, documented effects (DESIGN.md appendix B), z3, stubs. Bound: li value width, gap size in evidence.',
+        ref='6 C05'),
+    'C12': dict(
+        text='Off/on product with shared symbols: no accepting path of the uncompressed run is jointly satisfiable with a raising path of the compressed run, for all single-instruction programs (constants, aliases, literals in every operand position) and the layout templates.',
+        note='Trusted: z3, stubs. Bound: template programs; operand widths / gap sizes in evidence.',
+        ref='6 C12'),
+    'C20': dict(
+        text='For every path of the compressed run that leaves a literal-operand instruction at 32 bits, a quantifier-free eligibility predicate (exists legal non-hint h with expand(h) == word, Skolemised per RVC class) must be unsatisfiable; layout templates additionally compare total length and every label offset in both modes.',
+        note='Trusted: spec/sem.py expansion table, z3, stubs. Bound: as C04.',
+        ref='6 C20'),
+})
+
 NOT_YET = {}
 
 
